@@ -1,4 +1,4 @@
-HOOK_COMMITS = ['da136f3', '8dfdeaa']
+HOOK_COMMITS = ['da136f3', '8dfdeaa']  # QLIBC_VERIF_MAX_LINESIZE (qaconf.c), QLIBC_VERIF_HASHARR_NAMESIZE/DATASIZE (qhasharr.h)
 NA = lambda i, r: {'property_id': i, 'reason': r}
 _T = 'CBMC 6.11 bounded symbolic execution of the real translation units (goto-cc build from /repo on every run); '
 _NOTE = ('Trusted base: CBMC 6.11 C semantics, its SAT/SMT back ends and its models of malloc/free/memcpy/strlen etc.; the harness stubs listed in the evidence file; '
@@ -21,6 +21,12 @@ CHECKS = [
    'Floor semantics, history independence and termination for every probe position in every valid shape within the bound with arbitrary stale links (including on the root); continuation with getnext visits every key once when no walk is unfinished.'),
  C('C05', 'inductive step from every chain layout of n<=3(4) nodes over range<=3(4), hash stubbed by a solver-chosen table over all key bytes; SAT',
    'put/putstr/putint/get*/remove/clear/size/getnext from every valid table state within the bound with all collision patterns (the hash is an arbitrary function of the key bytes) behave as an ideal map; walk returns every key once.'),
+ C('C06', 'inductive step from EVERY well-formed slot-graph layout (driver-enumerated) of a heap region of M slots with knobs scaled by the guarded hook; home slot/key class/value size per-query constants, key and value bytes symbolic; independent image reader; SAT',
+   'put/get/remove/remove-by-index/walk/clear/size from every well-formed image within the capacity bound act as an ideal bounded map with exact key and used-slot counters; put succeeds iff a slot is free and the value fits into free + released slots, else ENOBUFS with other keys untouched. Scaled knobs (2/3) move every boundary into reach; production-size blocks are outside the claim.'),
+ C('C07', 'the C06 step queries with pointer/bounds checks on an exactly sized region, independent well-formedness checker after every operation, region copied to a second address with a second handle; constructor boundary queries; SAT',
+   'Nothing outside the region is touched, the image stays well-formed after every (also failed) operation, and a handle attached to a byte copy at another address observes the same keys, values and counters; constructor capacity computation and zeroing for region sizes around every boundary.'),
+ C('C08', 'inductive step from every list of n<=3(4) entries under each of the 16 option combinations (per-query constants), names/values symbolic, hash stubbed; save/load through an in-memory file; SAT',
+   'put/get/getmulti/walks/remove/removeobj/sort/size/clear from every list state within the bound behave as an ideal ordered multimap under all 16 option combinations; save then load reproduces entries in order and reports their number.'),
  C('C09', 'inductive step from every well-formed list of n<=4(5) nodes, index over the whole int range; queue/stack/grow on top; SAT',
    'Every list operation from every well-formed list within the bound with any int index acts as on an ideal sequence; refused calls change nothing; queue FIFO, stack LIFO, grow buffer concatenation.'),
  C('C10', 'inductive step from every vector state with capacity<=3(5), element sizes {1,3,...}, index over the whole int range; SAT',
@@ -29,6 +35,8 @@ CHECKS = [
    'No out-of-object access, use after free, overlapping memcpy, signed overflow or leak on any path of any one-step query of tree table, hash table, list family, vector within their bounds (static hash table and list table: see not-applicable/pending notes).'),
  C('C12', 'per entry point: caller buffers scribbled+freed before read-back, returned copies checked with __CPROVER_same_object and after container release; SAT',
    'Containers keep private copies and hand out independent copies, for every entry point of the covered containers and all byte contents within the bounds.'),
+ C('C13', 'interleaving injection: single-threaded harness, lock model with scheduling hook, the schedule point of the second thread\'s whole call is a solver variable; outcomes compared with both sequential orders on an ideal model; SAT',
+   'For two overlapping calls (one per logical thread) on a thread-safe vector, list, list table, hash table or tree table, results and final contents equal one of the two sequential orders for every scheduling point at lock-boundary granularity and every argument. More threads/calls, walks under the lock and memory-model effects are outside the claim.'),
  C('C14', 'every public function on a thread-safe container under a counting lock model with an allocation failure at each position; SAT',
    'The lock depth after each call equals the depth before it on every path reachable by arguments, state or allocation failure within the bounds.'),
  C('C15', 'allocation-failure position enumerated by the driver (1st..3rd, all-from-k), everything else symbolic; failure => state equals pre-state ghost; SAT',
@@ -41,6 +49,8 @@ CHECKS = [
    'qlibc hashes equal their published algorithms for every input of every length up to the bound; reads stay inside the buffer; file digest covers exactly the requested byte range.'),
  C('C19', 'per (function, lengths) all bytes symbolic vs reference specifications written from the documentation, pointer checks on exactly sized buffers; SAT',
    'Each covered string routine equals its reference for every input up to the length bound and never writes outside its buffers.'),
+ C('C20', 'print->parse round trip: structured symbolic document (Apache: line templates with symbolic names/argument bytes/quoting/padding/option table/flags; INI: driver-enumerated finite family executed by the symbolic executor), expected callback stream / entry list computed from the structure; SAT',
+   'Apache parser: exactly the written directives reach the callbacks in order with unquoted arguments, level, parent chain, section masks, booleans normalised, accept/reject per declarations, count and error line. INI parser: entries, sections, comments and ${} / ${%ENV} substitution for every document of the enumerated family (weaker: concrete texts, see DESIGN.md section 10).'),
 ]
 _claimed = set(c['id'] for c in CHECKS)
 _PENDING = {
